@@ -1,4 +1,5 @@
 import TcheranVerif.Proofs.MagicCert
+import TcheranVerif.Proofs.Sweep.S14  -- only to bound how many parts are checked at once (≈8 GB each)
 /-! C07 sweep, part 18: rook squares [19, 20, 21, 22] — decided by the kernel alone -/
 namespace Tcheran.Sweep
 
